@@ -595,4 +595,4 @@ RULES.append(('18.P', 'panic sites: no reviewed function that parses / handles u
 RULES.append(('18.A', 'enum accessors agree across sibling variants: an accessor that returns the payload field `x` for one variant returns it for every variant whose payload carries a field of that name and type (a variant moved to the `=> None` arm) - rules/accessors.py', lambda F: accessors.for_property(F, 'C18', '18.A')))
 RULES.append(('18.G', 'guard census: no reviewed call of a workspace function and no reviewed mutation of a stored collection gained a controlling branch condition (an added `&& cond`, early return / continue, more specific match arm in front of an act); counts per call site, name free (rules/guards.py)', lambda F: guards.for_property(F, 'C18', '18.G')))
 RULES.append(('18.W', 'field assignments: every reviewed (function, Type.field) direct assignment is still made - state that a path no longer updates, or updates only conditionally (get_or_insert for an overwrite); generalises NN.R (rules/writes.py)', lambda F: writes.for_property(F, 'C18', '18.W')))
-RULES.append(('18.N', 'arithmetic census: per reviewed function the number of operations per (group: add/sub, mul, div, rem, shift, bit, min, max, div_ceil ...; flavour: plain / checked / saturating / wrapping) is unchanged - a dropped or added `+ 1`, a rounding direction, saturating for checked, min for max (rules/arith.py; value arithmetic itself is not decided)', lambda F: arith.for_property(F, 'C18', '18.N')))
+RULES.append(('18.N', 'arithmetic census: per reviewed function the set of operation kinds (group: add/sub, mul, div, rem, shift, bit, min, max, div_ceil ...; flavour: plain / checked / saturating / wrapping) keeps its kinds: no reviewed function lost or gained a kind of arithmetic altogether - a rounding direction (`/` for div_ceil), saturating for checked, min for max (rules/arith.py; counts and value arithmetic itself are not judged)', lambda F: arith.for_property(F, 'C18', '18.N')))
